@@ -71,9 +71,12 @@ void runOps(NifFile& base, Ctx& cx, const std::vector<std::vector<std::string>>&
 	{
 		NifFile c(base);
 		updateAllBounds(c);
-		saveToString(c, false, false); // raw save first: normalises (drops empty array entries, fills sizes/strings)
 		UidMap um;
+		std::string pre0 = project(c, um, po, &cx.cids);
+		saveToString(c, false, false); // raw save first: normalises (drops empty array entries, fills sizes/strings)
 		std::string pre = project(c, um, po, &cx.cids);
+		// what that normalisation may do to the model: drop emptied entries of reference lists, nothing else
+		cx.sortEvent("SaveRaw", "", pre0, pre);
 		std::string bytes = saveToString(c, true, true);
 		std::string mid = project(c, um, po, &cx.cids);
 		cx.sortEvent("SaveDefault", "", pre, mid, fileAbstract(bytes, &c, cx.cids));
@@ -189,6 +192,33 @@ int cmdSamples(int argc, char** argv) {
 				}
 			}
 			runOps(nif, cx, orders);
+			// the same model with entries of its longer reference lists emptied (what deleting blocks leaves behind): two
+			// empty entries in front of used ones in child lists, extra-data lists and the other reference arrays
+			{
+				NifFile ed;
+				if (ed.Load(samplePath(files[k])) != 0) return;
+				size_t emptied = 0;
+				for (uint32_t b = 0; b < ed.GetHeader().GetNumBlocks(); b++) {
+					auto o = ed.GetHeader().GetBlock<NiObject>(b);
+					if (!o) continue;
+					auto emptySome = [&](NiRefArray& arr) {
+						if (arr.GetSize() < 4) return;
+						arr.SetBlockRef(0, NIF_NPOS);
+						arr.SetBlockRef(2, NIF_NPOS);
+						emptied++;
+					};
+					if (auto n = dynamic_cast<NiNode*>(o)) emptySome(n->childRefs);
+					if (auto net = dynamic_cast<NiObjectNET*>(o)) emptySome(net->extraDataRefs);
+					if (auto av = dynamic_cast<NiAVObject*>(o)) emptySome(av->propertyRefs);
+					if (auto cm = dynamic_cast<NiControllerManager*>(o)) emptySome(cm->controllerSequenceRefs);
+				}
+				if (emptied) {
+					JObj cj2;
+					cj2.add("file", files[k]).add("variant", "emptied-entries");
+					cx.caseJson = cj2.done();
+					runOps(ed, cx, {});
+				}
+			}
 		},
 		[&](size_t k, const std::string& why, FILE* out) {
 			fprintf(out, "{\"e\":\"crash\",\"case\":{\"file\":%s},\"why\":%s}\n", J::str(files[k]).s.c_str(), J::str(why).s.c_str());
